@@ -5,6 +5,8 @@ import (
 	"strings"
 
 	"github.com/ohler55/ojg"
+	"github.com/ohler55/ojg/gen"
+	"github.com/ohler55/ojg/oj"
 	"github.com/ohler55/ojg/sen"
 )
 
@@ -251,5 +253,104 @@ func suiteSenAgree(tier string, seed uint64) *Report {
 		}
 	}
 	rep.Rule = "SEN clause: values as SEN spells them (bare tokens, quoted and escaped spellings of true/false/null, both quote kinds, numbers incl. big and overflowing, comments, CRLF) alone, in arrays, as members, as keys, in pairs with every separator, random sequences, sen.String output of seeded trees, and one-byte mutations; each through sen.Parser.Parse, sen.Parser.ParseReader and sen.Tokenizer.Load under every single split (short inputs), 1- and 2-byte reads and random multi-splits, sen.Tokenizer.Parse; single- and multi-document (callback) mode; all outcomes must equal that of sen.Parser.Parse (value trees with tokenizer events folded as a Builder would; an error in every case)"
+	return rep
+}
+
+// C03, channel clause: the documents delivered on a channel (drained after the call) equal the
+// ones delivered to a callback, for oj.Parser, gen.Parser and sen.Parser, with and without the
+// Reuse option, []byte and reader entry points.
+func suiteChannel(tier string, seed uint64) *Report {
+	rep := &Report{Property: "C03", Tier: tier, Seed: seed}
+	r := NewRng(seed + 909)
+	n := 150
+	if tier == "thorough" {
+		n = 3000
+	}
+	for i := 0; i < n; i++ {
+		var parts []string
+		for k := 0; k < 2+r.Intn(4); k++ {
+			d := genDoc(r)
+			if len(d) > 80 {
+				d = []byte(fmt.Sprintf(`{"id":%d,"l":[%d,{"k":%d}]}`, k, k, i))
+			}
+			parts = append(parts, string(d))
+		}
+		in := []byte(strings.Join(parts, "\n"))
+		for _, reuse := range []bool{false, true} {
+			for _, reader := range []bool{false, true} {
+				run := func(which string, useChan bool) string {
+					return senOutcome(func() ([]string, error) {
+						buf := append([]byte(nil), in...)
+						var docs []string
+						var err error
+						rd := &chunkReader{data: buf, chunks: []int{7, 5, 3}}
+						switch which {
+						case "oj.Parser":
+							p := oj.Parser{Reuse: reuse}
+							ch := make(chan any, 4096)
+							var arg any = func(v any) bool { docs = append(docs, Show(v)); return false }
+							if useChan {
+								arg = ch
+							}
+							if reader {
+								_, err = p.ParseReader(rd, arg)
+							} else {
+								_, err = p.Parse(buf, arg)
+							}
+							close(ch)
+							for v := range ch {
+								docs = append(docs, Show(v))
+							}
+						case "gen.Parser":
+							p := gen.Parser{Reuse: reuse}
+							ch := make(chan gen.Node, 4096)
+							var arg any = func(v gen.Node) bool { docs = append(docs, Show(v)); return false }
+							if useChan {
+								arg = ch
+							}
+							if reader {
+								_, err = p.ParseReader(rd, arg)
+							} else {
+								_, err = p.Parse(buf, arg)
+							}
+							close(ch)
+							for v := range ch {
+								docs = append(docs, Show(v))
+							}
+						case "sen.Parser":
+							p := sen.Parser{Reuse: reuse}
+							ch := make(chan any, 4096)
+							var arg any = func(v any) bool { docs = append(docs, Show(v)); return false }
+							if useChan {
+								arg = ch
+							}
+							if reader {
+								_, err = p.ParseReader(rd, arg)
+							} else {
+								_, err = p.Parse(buf, arg)
+							}
+							close(ch)
+							for v := range ch {
+								docs = append(docs, Show(v))
+							}
+						}
+						if err != nil {
+							return append(docs, "E"), nil
+						}
+						return docs, nil
+					})
+				}
+				for _, which := range []string{"oj.Parser", "gen.Parser", "sen.Parser"} {
+					rep.Evaluations++
+					cb, ch := run(which, false), run(which, true)
+					if cb != ch {
+						rep.Add(Disagreement{Case: hx(in), Where: fmt.Sprintf("%s channel vs callback reuse=%v reader=%v", which, reuse, reader),
+							Kind: "impl-law:channel-mode", Impl: ch, Spec: cb, Detail: fmt.Sprintf("%q", in)})
+					}
+				}
+			}
+		}
+	}
+	rep.Rule = "channel clause: 2-5 seeded documents per text; oj.Parser, gen.Parser, sen.Parser x Reuse false/true x []byte/reader: the documents read from a buffered channel after the call must equal the ones seen by a callback during the call"
 	return rep
 }
